@@ -10,12 +10,12 @@ THEOREMS = ["Frost.C01.sign_aggregate_verify", "Frost.C01.signature_roundtrip",
             "Frost.SignSession.aggregate_eq", "Frost.computeGroupCommitment_eq",
             "Frost.computeLagrangeCoefficient_eq", "Frost.lagrange_interp_list",
             "Frost.evaluatePolynomial_eq", "Frost.identifierOfNat_eq",
-            "Frost.C01.msm_sound", "Frost.C01.naf_value"]
+            "Frost.C01.msm_sound", "Frost.C01.naf_value", "Frost.C01.leSound_ref", "Frost.C01.msm_sound_ref"]
 RULE = ("one case = one honest signing session (suite, n, t, identifier kind, signer subset S with t<=|S|<=n, message); "
         "non-trivial = commit, sign by every signer, share verification, aggregation (one or three modes) and verification all ran; "
         "distinct = distinct hash of (suite, identifiers, subset, message, key material)")
 ASSUMPTIONS = ["the session's hash-derived values exist: commitments, group commitment and key are not the identity (probability ~2^-252 on the real suites; occurs on toy16, where code and model agree on the error)",
-               "MsmSound: the multiscalar multiplication returns sum s_i*P_i whenever it returns (hypothesis of the theorem; compared output-for-output with the real code on every session and on direct msm requests)",
+               "MsmSound: the multiscalar multiplication returns sum s_i*P_i whenever it returns (a field of SignSession.Ok, PROVED from the encoding law LeSound by msm_sound, and LeSound itself PROVED for the encoder the reference suites run, natToLE s.val len over ZMod q for every prime q <= 256^len: leSound_ref / msm_sound_ref; compared output-for-output with the real code on every session and on direct msm requests)",
                "Taproot suite: covered here by the implementation-level oracle (incl. libsecp256k1 BIP-340 verification); its theorem is C18"]
 TRUSTED = ["modelled, not verified: field/module laws of the curve libraries; hash functions (any functions in the theorem)"]
 
